@@ -17,6 +17,8 @@
    c02.jdec json|jsonl <nprof> <lit=canon…> <hex>
        number profile: hex(literal)=hex(FormatFloat(ParseFloat literal)) or hex(literal)=! (ParseFloat fails)
        JSON cells: N | S<hex> | I<hex decimal text> | F<hex decimal text> | X (NaN/Inf) | B0 B1 | T0 T1 TU | D<hex>
+   c02.jspell <ncols> <hdr…>                     column names as JSON paths: `spell` (no name is a prefix path of another, no
+                                                 empty segment: the writers must carry them) | `refuse` (they must not write)
    c02.jlb <hex bytes>                           the line break of a JSON / JSON Lines file: LF | CRLF | CR | -
    c02.nop                                                                          (law-only case)
 
@@ -327,6 +329,16 @@ def jdec (args : List String) : String :=
     | _ => "bad-op"
   | _ => "bad-op"
 
+def jspell (args : List String) : String :=
+  match args with
+  | nc :: rest =>
+    match nc.toNat?, rest.mapM parseHdr with
+    | some nc, some names =>
+      if names.length ≠ nc then "bad-op"
+      else if Json.pathsSpellable names then "spell" else "refuse"
+    | _, _ => "bad-op"
+  | _ => "bad-op"
+
 def jlb (args : List String) : String :=
   match args with
   | [hx] =>
@@ -357,6 +369,7 @@ def c02 (cmd : String) (args : List String) : String :=
   | "junesc", rest => C02.junesc rest
   | "jenc", rest => C02.jenc rest
   | "jdec", rest => C02.jdec rest
+  | "jspell", rest => C02.jspell rest
   | "jlb", rest => C02.jlb rest
   | "nop", [] => "ok"     -- a case whose law is checked on the implementation alone
   | _, _ => "bad-op"
